@@ -622,6 +622,44 @@ func TestRaceFreeRunning(t *testing.T) {
 			}()
 			twg.Wait()
 			bc.Commit()
+			// a fifth of the blocks are executed a second time through another BlockCache object (same hash, same
+			// writes); its commit finds the block committed and is ignored, while a reader still uses that object
+			if (len(b.Hash)+len(b.Writes))%5 == 0 {
+				bc2 := statecache.NewBlockCache(c, statecache.Block{Hash: b.Hash, PrevHash: b.Prev})
+				tc := statecache.NewTransactionCache(bc2)
+				for _, k := range keys {
+					if v, ok := b.Writes[k]; ok {
+						if v == "" {
+							tc.Remove(k)
+						} else {
+							tc.Set(k, statecache.String(v))
+						}
+					}
+				}
+				tc.Commit()
+				var dwg sync.WaitGroup
+				dwg.Add(1)
+				go func() {
+					defer dwg.Done()
+					for round := 0; round < 3; round++ {
+						for _, k := range keys {
+							got, ok := bc2.Get(k)
+							if !ok {
+								continue
+							}
+							own, wrote := b.Writes[k]
+							pv, pfound, pdel := truth(k, b.Prev)
+							g := string(got.(statecache.String))
+							if !(wrote && own != "" && g == own) && !(pfound && !pdel && g == pv) {
+								fail(fmt.Sprintf("lookup %s through the second execution of block %s hit %q: neither its own write %q nor the parent chain's %q", k, b.Hash, g, own, pv))
+							}
+						}
+						runtime.Gosched()
+					}
+				}()
+				bc2.Commit()
+				dwg.Wait()
+			}
 		}
 		mkCommit(&blocks[0])
 		var wg sync.WaitGroup
